@@ -5,13 +5,16 @@
    is IHDR (13 bytes, encoding the header), chunks, the single IDAT written by `output`, frames,
    chunks, IEND, with PLTE/tRNS synthesised from the header before IDAT; frame sequence numbers are
    consecutive (C10). CRC-32 values fit 32 bits.
-   PARTIAL: that the IDAT payload is a valid zlib stream of exactly raw_data_size bytes with filter
-   types 0..4, and that every pixel index is inside the palette, follows from the pipeline
-   (IDAT = deflate (filter_image candidate), C19, C18_raw_data_size) under the zlib oracle; this
-   composition and the input-relative constraints are decided per run by the strict validator oracle.
-   Known finding F8: a truecolour image with a suggested PLTE and hIST loses PLTE but keeps hIST. *)
+   IDAT CONTENT (C02_idat_content_partial): the data of the candidate that optimize_raw emits is the compressor's answer for
+   a stream which the specification's un-filtering cuts into exactly the rows the (output) header implies - hence it has exactly
+   the size the header implies - each starting with a filter type 0..4, and which un-filters to the candidate's image data, whose
+   meaning (palette indices inside the palette included) is the input's (C01). Given under the record `leaves` of C01 and for
+   runs without alpha rewriting; that inflate undoes the compressor is the zlib oracle assumption, re-validated on every run.
+   PARTIAL: the input-relative ordering constraints of ancillary chunks are decided per run by the strict validator oracle.
+   (Finding F8 - hIST kept without PLTE - was repaired by fix 2fc6ac2; the validator reports it if it ever returns.) *)
 From OxiVerif Require Import Base.Common Base.Crc32 Spec.Decode Model.Types Model.Options Model.Headers Model.PngData
-  Proofs.OutputProofs.
+  Model.Evaluate Model.Optimize Proofs.OutputProofs Proofs.PipelineLossless Proofs.EmittedStream.
+From OxiVerif Require Import Spec.Sem Spec.DecodeFile Proofs.Bridge Proofs.OutputDecode.
 
 Theorem C02_output_is_chunk_sequence : forall p, output p = PNG_SIG ++ serialize (output_chunks p).
 Proof. exact output_is_serialize. Qed.
@@ -42,3 +45,28 @@ Theorem C02_parse_serialize : forall cs, Forall chunk_wf cs -> Forall not_iend c
   spec_parse_chunks fuel (serialize (cs ++ [(spec_IEND, [])])) = Some (cs ++ [(spec_IEND, [])]).
 Proof. exact parse_serialize. Qed.
 Print Assumptions C02_parse_serialize.
+
+Theorem C02_idat_content_partial : forall (L : leaves) e o img max_size c pic,
+  optimize_alpha o = false -> scale_16 o = false -> means pic img ->
+  optimize_raw e o img max_size = Ok (Some c) ->
+  exists d stream, c_cdata c = z_deflate e d stream /\
+    spec_unfilter (width (hdr (c_image c))) (height (hdr (c_image c))) (bpp (hdr (c_image c))) (interlaced (hdr (c_image c))) stream
+    = Some (data (c_image c)).
+Proof. exact emitted_idat_valid_partial. Qed.
+Print Assumptions C02_idat_content_partial.
+
+(* an independent decoder's view of the output: the specification's whole-file decoder (strict container, IHDR legal fields, colour
+   interpretation from PLTE/tRNS, all IDAT payloads as one stream) reads the written file as the inflated IDAT content under exactly
+   the header and palette/key of the image that was written *)
+Theorem C02_output_decodes : forall (inflate : list Z -> option (list Z)) (p : pngdata),
+  Forall chunk_wf (output_body p) -> Forall not_iend (output_body p) ->
+  writable (hdr (raw p)) -> 0 <= depth (hdr (raw p)) < 256 ->
+  Forall not_key (aux_written p) ->
+  spec_decode_png inflate (output p) =
+  match inflate (idat_data p) with
+  | Some stream => spec_decode_stream (width (hdr (raw p))) (height (hdr (raw p))) (spec_color_of (ctype (hdr (raw p))))
+                                      (depth (hdr (raw p))) (interlaced (hdr (raw p))) stream
+  | None => None
+  end.
+Proof. exact output_decodes. Qed.
+Print Assumptions C02_output_decodes.
